@@ -182,6 +182,25 @@ pub fn cov_from_obs(cov: &mut Cov, o: &Obs) {
     for i in 0..64 {
         cov.add("dist_slot", i as u32, o.slots[i]);
     }
+    if o.pb.is_some() {
+        for st in 0..12 {
+            for ps in 0..16 {
+                cov.add("ctx_is_match", (st * 16 + ps) as u32, o.ctx_is_match[st][ps] as u64);
+            }
+        }
+        for c in 0..2 {
+            for cl in 0..3 {
+                for ps in 0..16 {
+                    cov.add("ctx_len", (c * 48 + cl * 16 + ps) as u32, o.ctx_len[c][cl][ps] as u64);
+                }
+            }
+        }
+        for ls in 0..4 {
+            for sl in 0..64 {
+                cov.add("ctx_slot", (ls * 64 + sl) as u32, o.ctx_slot[ls][sl] as u64);
+            }
+        }
+    }
     cov.name("symbols_decoded", o.syms);
     cov.name("win.copies", o.lz_copies);
     cov.name("win.src_straddle", o.src_straddle);
@@ -220,6 +239,9 @@ pub fn std_label(group: &str, i: u32) -> String {
             crate::refmodel::lzma2::CLASS_NAMES[(i / 6) as usize],
             crate::refmodel::lzma2::CLASS_NAMES[(i % 6) as usize]
         ),
+        "ctx_is_match" => format!("state{}.pos_state{}", i / 16, i % 16),
+        "ctx_len" => format!("{}.{}.pos_state{}", ["match", "rep"][(i / 48) as usize], LEN_CLASS_NAMES[((i / 16) % 3) as usize], i % 16),
+        "ctx_slot" => format!("len_state{}.slot{}", i / 64, i % 64),
         "props" => {
             let p = &all_props()[i as usize];
             format!("lc{}lp{}pb{}", p.lc, p.lp, p.pb)
